@@ -420,6 +420,8 @@ def load_corpus():
     out = []
     if CORPUS.is_dir():
         for p in sorted(CORPUS.glob("*.json")):
+            if p.name.startswith("assign_"):
+                continue  # cases of harness/props/e2e_assign.py
             c = json.loads(p.read_text())
             c.setdefault("feats", ["corpus:" + p.stem])
             c.setdefault("stream", "corpus")
